@@ -325,13 +325,25 @@ func c20c(c *Ctx) {
 				return
 			}
 			mt, ok := mu.Map.Type().Underlying().(*types.Map)
-			if !ok || !types.Identical(mt.Elem(), types.Typ[types.Bool]) {
+			if !ok {
+				return
+			}
+			// a set of strings: map[string]bool, or map[string]struct{} tested with comma-ok
+			_, isEmptyStruct := mt.Elem().Underlying().(*types.Struct)
+			if est, ok2 := mt.Elem().Underlying().(*types.Struct); ok2 && est.NumFields() != 0 {
+				isEmptyStruct = false
+			}
+			if !types.Identical(mt.Elem(), types.Typ[types.Bool]) && !isEmptyStruct {
 				return
 			}
 			n++
 			key := c.term(fn, mu.Key)
 			mapT := c.term(fn, mu.Map)
-			guard := hasLit(c.mustLits(fn, mu.Block()), "-"+mapT+"["+key+"]")
+			seenLit := mapT + "[" + key + "]"
+			if isEmptyStruct {
+				seenLit += "#1"
+			}
+			guard := hasLit(c.mustLits(fn, mu.Block()), "-"+seenLit)
 			c.Check(guard, name+"/duplicate-case/check-before-insert", c.W.Pos(mu.Pos()), "case value inserted only after the lookup of the same key was false", "case value "+pretty(key)+" is inserted into the seen-set without first testing the same key")
 			// the key is the value that is compared at run time (after constant substitution)
 			same := false
@@ -345,7 +357,7 @@ func c20c(c *Ctx) {
 			// error location: range from the 'case' keyword to the current token
 			errOK := false
 			for _, r := range returnsOf(fn) {
-				if isSuccessReturn(r) || !hasLit(c.mustLits(fn, r.Block()), "+"+mapT+"["+key+"]") {
+				if isSuccessReturn(r) || !hasLit(c.mustLits(fn, r.Block()), "+"+seenLit) {
 					continue
 				}
 				if call, ok := r.Results[len(r.Results)-1].(*ssa.Call); ok && calleeName(call) == c.W.ModPath+"/parser.NewRangeParseError" {
